@@ -246,13 +246,17 @@ fn run_ops(par: &Par, bytes: &[u8], ops: &[Value], alloc_ceiling: usize, progres
                     match mla::helpers::linear_extract(rd, &mut export) { Ok(()) => "ok".into(), Err(_) => "err".into() }
                 }
                 "linearsub" => {
-                    // a SUBSET: the last listed file only (the blocks of every other file are skipped, not delivered)
+                    // every SUBSET of one file in turn: whichever block is damaged, some run skips it instead of delivering it
                     let Some(rd) = reader.as_mut() else { return "noreader".into() };
                     let mut names: Vec<String> = rd.list_files().map(|i| i.cloned().collect()).unwrap_or_default();
                     names.sort();
-                    let chosen: Vec<String> = names.into_iter().rev().take(1).collect();
-                    let mut export: HashMap<&String, LimitSink> = chosen.iter().map(|n| (n, LimitSink(0, 64 * bytes.len() + 4096))).collect();
-                    match mla::helpers::linear_extract(rd, &mut export) { Ok(()) => "ok".into(), Err(_) => "err".into() }
+                    let mut errs = 0;
+                    for one in names.iter().take(4) {
+                        let chosen = [one.clone()];
+                        let mut export: HashMap<&String, LimitSink> = chosen.iter().map(|n| (n, LimitSink(0, 64 * bytes.len() + 4096))).collect();
+                        if mla::helpers::linear_extract(rd, &mut export).is_err() { errs += 1; }
+                    }
+                    if errs > 0 { "err".into() } else { "ok".into() }
                 }
                 "repair" => {
                     for unauth in [false, true] {
